@@ -198,6 +198,20 @@ def params_surface(m, run):
 
 
 def approx(m, run):
+    # the least-squares fits are decided as linear maps of symbolic data points, the real linalg code interpreted exactly (AP3); the rules
+    # that read the index spelling of the end rows, of the interior fill loops and of the flat arrays corroborate
+    from .. import skel_drivers as _sd
+    n0 = len(run.obs)
+    try:
+        _sd.ap3(m, run)
+    except AnalysisError as ex:
+        run.error(str(ex))
+    ok = len(run.obs) > n0 and all(o.ok for o in run.obs[n0:])
+    with run.corroborating(ok, 'AP3', rules=('LY1.prealloc-stride', 'END2.end-rows-copied', 'END2.interior-only')):
+        _approx_syntactic(m, run)
+
+
+def _approx_syntactic(m, run):
     fs = m.func('fitting.approximate_surface')
     pts = params_of(fs.node)[0]
     sv = to_poly(ast.parse('size_v', mode='eval').body)
